@@ -86,9 +86,11 @@ def run(ctx):
     ctx.assumptions += ['TLC evaluates Covered/Disjoint on the real outputs; no Go-side oracle for the ranges.Gaps arm',
                         'MC bounds: see tlc_runs; total range always starts at 0 as in decode.FillGaps']
     gaps_arm(ctx)
+    import treearm
+    treearm.run_for(ctx, 'C04', do_mc=False)
     try:
-        import treearm
+        import corpusarm
     except ImportError:
-        treearm = None
-    if treearm:
-        treearm.run_for(ctx, 'C04')
+        corpusarm = None
+    if corpusarm:
+        corpusarm.run_for(ctx, 'C04')
